@@ -87,12 +87,13 @@ def _model_check(ctx, quick):
         for creator in ("FALSE", "TRUE"):
             ctx.tlc_expect_ok("MetaEnvelope", "MC_MetaEnvelope.cfg", name="mc_mut2_creator_" + creator, workers=4,
                               consts={"Creator": creator, "MaxMut": "2"}, timeout=1200)
-    # the model is not vacuous: each weakened signer table breaks Sound at design level
+    # the model is not vacuous: each weakened signer table breaks the properties at design level
     for (t, r) in (WEAK[:3] if quick else WEAK):
         res = ctx.tlc("MetaEnvelope", "MC_MetaEnvelope.cfg", name="mc_weak_%s_%s" % (t[:18], r), workers=2,
                       consts={"Creator": "TRUE", "WeakType": '"%s"' % t, "WeakRule": '"%s"' % r}, allow_violation=True, count=False)
-        if res.violated != "Sound":
-            raise vf.Infra("model vacuous: weakened table (%s -> %s) does not violate Sound (got %s)" % (t, r, res.violated))
+        # (a wrong signer instead of a weaker one also rejects honest events: TLC may report that first)
+        if res.violated not in ("Sound", "Complete"):
+            raise vf.Infra("model vacuous: weakened table (%s -> %s) violates neither Sound nor Complete (got %s)" % (t, r, res.violated))
     ctx.extra["weak_tables_rejected_by_model"] = len(WEAK[:3] if quick else WEAK)
 
 
